@@ -130,7 +130,7 @@ func (c14) Gen(r *simrt.Rand, idx int, tier string) *Case {
 		if c.Cmd == "format" {
 			c.Cmd = "check"
 		}
-		c.Note = []string{"self", "cycle2", "cycle3", "diamond", "missing", "dir"}[r.Intn(6)]
+		c.Note = []string{"self", "cycle2", "cycle3", "diamond", "missing", "dir", "missing-odd"}[r.Intn(7)]
 	case "flags":
 		c.Note = "flag faults"
 	case "soup":
@@ -331,6 +331,21 @@ func (c14) Eval(c *Case) (*Violation, bool) {
 			inc(names[c.N%len(names)], "/w/not/there.knut")
 		case "dir":
 			inc(names[c.N%len(names)], "/w")
+		case "missing-odd":
+			// the journal named by a relative path, and a missing include whose name
+			// looks like something else (a flag, the stdin convention, a home directory)
+			rel := map[string]string{}
+			for k, v := range files {
+				rel[strings.TrimPrefix(k, "/w/")] = v
+			}
+			files = rel
+			main = strings.TrimPrefix(main, "/w/")
+			odd := []string{"-", "--", "~", "-h", "~/x.knut", "%s", "*", "nul"}[c.N%8]
+			files[main] = "include \"" + odd + "\"\n" + files[main]
+			what = "missing include named " + odd
+			if c.N%3 == 0 {
+				main = "./" + main
+			}
 		}
 		for i := 0; i < 2; i++ {
 			sp := c.specFor(s, files, c.argv(main))
